@@ -45,6 +45,10 @@ def mk(kinds, marker):
             lines.append("open('u%d.txt')" % i)
         elif k == 'ff':
             lines.append("f%d = 1 \x0c+ 1" % i)
+        elif k == 'func':
+            # a function whose failure only happens when instructor code calls it (the failing frame is a line of the
+            # section although the code the sandbox was asked to run is the instructor's call)
+            lines.append("def g%d(): print(u%d)" % (i, i))
         elif k == 'same':
             lines.append("print(zz)")            # the same text wherever it stands: two sections can be identical
         elif k == 'samesyn':
@@ -141,7 +145,15 @@ def one_pass(ctx, src, independent, pat, order, ending, case, tag, entry='separa
                                           'label': lab, 'mode': mode_name, 'where': where}, case=case, k=k, got=iln,
                                          want=int(nm[1:]) + 1)
                 else:
+                    had = {n: id(v) for n, v in sb_cmds.get_sandbox().data.items()}
                     sb_cmds.run()
+                    for fm in re.finditer(r'^def (g\d+)\(', code, re.M):
+                        # only a function this very run defined (one left by an earlier run of other text carries that
+                        # text's numbering, which no bookkeeping can translate)
+                        now = sb_cmds.get_sandbox().data
+                        if fm.group(1) in now and had.get(fm.group(1)) != id(now[fm.group(1)]):
+                            ctx.step('call ' + fm.group(1))
+                            sb_cmds.call(fm.group(1))
             except Exception as e:
                 ctx.fail({'symptom': 'tool raised inside a section', 'tool': tool, 'exception': type(e).__name__},
                          case=case, k=k, message=str(e)[:200])
@@ -397,6 +409,8 @@ def phases(tier):
                       describe='all files of <=4 lines x pattern x mode x ending x second pass'),
                 Phase('identical-sections', make_body(5, [TOOLS], True, ['same', 'marker', 'samesyn', 'clean']), setup=_setup, chunk=300,
                       describe='files of <=5 lines whose sections can be textually identical (same failing line in each)'),
+                Phase('called-functions', make_body(4, [TOOLS], False, ['clean', 'marker', 'func', 'name']), setup=_setup, chunk=300,
+                      describe='files of <=4 lines whose sections define functions that fail when the instructor calls them'),
                 Phase('own-report', body_own_report, setup=_setup, chunk=300,
                       describe='files of <=3 lines walked on a caller-owned Report (report= on every call); global report untouched'),
                 Phase('endings', make_body(3, [TOOLS], False, ['clean', 'name', 'marker'], endings_phase=True), setup=_setup, chunk=300,
@@ -409,5 +423,7 @@ def phases(tier):
     orders = list(itertools.permutations(TOOLS))
     return [Phase('sections', make_body(5, [TOOLS], True), setup=_setup, chunk=300,
                   describe='all files of <=5 lines x pattern x mode x ending x second pass'),
+            Phase('called-functions', make_body(5, [TOOLS], True, ['clean', 'marker', 'func', 'name', 'blank']), setup=_setup, chunk=300,
+                  describe='files of <=5 lines whose sections define functions that fail when the instructor calls them'),
             Phase('tool-orders', make_body(4, orders, False), setup=_setup, chunk=300,
                   describe='all files of <=4 lines x every order of cait/verify/tifa/run')]
